@@ -3,7 +3,9 @@ package main
 import (
 	"fmt"
 	"math"
+	"strconv"
 	"strings"
+	"unsafe"
 
 	"github.com/paulmach/orb"
 )
@@ -32,6 +34,203 @@ func independent(a, b orb.Geometry) bool {
 		*p = old
 	})
 	return ok
+}
+
+// ---- alias structure (heap model lean/Orb/Heap.lean) ----
+
+var c06Sentinel = orb.Point{math.Float64frombits(0x4197d78400000000), math.Float64frombits(0xc197d78400000000)}
+
+// pointSlices appends every point slice reachable from g, in traversal order
+// (the order of Orb.Heap.footprint).
+func pointSlices(g orb.Geometry, out *[][]orb.Point) {
+	switch g := g.(type) {
+	case orb.MultiPoint:
+		*out = append(*out, []orb.Point(g))
+	case orb.LineString:
+		*out = append(*out, []orb.Point(g))
+	case orb.Ring:
+		*out = append(*out, []orb.Point(g))
+	case orb.MultiLineString:
+		for _, l := range g {
+			*out = append(*out, []orb.Point(l))
+		}
+	case orb.Polygon:
+		for _, l := range g {
+			*out = append(*out, []orb.Point(l))
+		}
+	case orb.MultiPolygon:
+		for _, pg := range g {
+			for _, l := range pg {
+				*out = append(*out, []orb.Point(l))
+			}
+		}
+	case orb.Collection:
+		for _, m := range g {
+			pointSlices(m, out)
+		}
+	}
+}
+
+// shareGeom rebuilds g so that the j-th point slice (traversal order) IS the slice of slot slots[j]
+// (the same header: same backing array, same length); slot j keeps its own slice when slots[j] == j.
+func shareGeom(g orb.Geometry, slots []int, tab *[][]orb.Point) orb.Geometry {
+	take := func(own []orb.Point) []orb.Point {
+		j := len(*tab)
+		s := own
+		if j < len(slots) && slots[j] < j {
+			s = (*tab)[slots[j]]
+		}
+		*tab = append(*tab, s)
+		return s
+	}
+	switch g := g.(type) {
+	case orb.MultiPoint:
+		return orb.MultiPoint(take(g))
+	case orb.LineString:
+		return orb.LineString(take(g))
+	case orb.Ring:
+		return orb.Ring(take(g))
+	case orb.MultiLineString:
+		m := make(orb.MultiLineString, len(g))
+		for i := range g {
+			m[i] = orb.LineString(take(g[i]))
+		}
+		return m
+	case orb.Polygon:
+		m := make(orb.Polygon, len(g))
+		for i := range g {
+			m[i] = orb.Ring(take(g[i]))
+		}
+		return m
+	case orb.MultiPolygon:
+		m := make(orb.MultiPolygon, len(g))
+		for i := range g {
+			pg := make(orb.Polygon, len(g[i]))
+			for k := range g[i] {
+				pg[k] = orb.Ring(take(g[i][k]))
+			}
+			m[i] = pg
+		}
+		return m
+	case orb.Collection:
+		m := make(orb.Collection, len(g))
+		for i := range g {
+			m[i] = shareGeom(g[i], slots, tab)
+		}
+		return m
+	}
+	return g
+}
+
+// span is the address range of the backing array visible through a header (up to its capacity).
+func span(s []orb.Point) (lo, hi uintptr) {
+	if cap(s) == 0 {
+		return 0, 0
+	}
+	lo = uintptr(unsafe.Pointer(&s[:1][0])) // base of the backing array (go.mod pins go1.15: no unsafe.SliceData)
+	return lo, lo + uintptr(cap(s))*unsafe.Sizeof(orb.Point{})
+}
+
+func spansOverlap(a, b []orb.Point) bool {
+	al, ah := span(a)
+	bl, bh := span(b)
+	return al < ah && bl < bh && al < bh && bl < ah
+}
+
+// aliasReport: "<n> <class…>" for the non-empty point slices of a, then of b; equal small integers name
+// equal backing-array pointers (numbered by first occurrence over both traversals); then two bits: does any
+// slice of b overlap (address ranges up to capacity) a slice of a / another slot of b held in a different array.
+func aliasReport(a, b orb.Geometry) string {
+	var sa, sb [][]orb.Point
+	pointSlices(a, &sa)
+	pointSlices(b, &sb)
+	names := map[unsafe.Pointer]int{}
+	cls := func(ss [][]orb.Point) string {
+		var out []string
+		for _, s := range ss {
+			if len(s) == 0 {
+				continue
+			}
+			p := unsafe.Pointer(&s[0])
+			n, ok := names[p]
+			if !ok {
+				n = len(names)
+				names[p] = n
+			}
+			out = append(out, strconv.Itoa(n))
+		}
+		return strings.TrimSpace(strconv.Itoa(len(out)) + " " + strings.Join(out, " "))
+	}
+	ca := cls(sa)
+	cb := cls(sb)
+	ab, bb := false, false
+	for i, x := range sb {
+		for _, y := range sa {
+			if spansOverlap(x, y) {
+				ab = true
+			}
+		}
+		for k, y := range sb {
+			if k != i && spansOverlap(x, y) {
+				bb = true
+			}
+		}
+	}
+	return ca + " " + cb + " " + b2s(ab) + " " + b2s(bb)
+}
+
+// writeProbe overwrites vertex i of the j-th point slice of `target` and serialises both values.
+func writeProbe(target, g, c orb.Geometry, j, i int) string {
+	var ss [][]orb.Point
+	pointSlices(target, &ss)
+	if j >= len(ss) || i >= len(ss[j]) {
+		return "nowrite"
+	}
+	old := ss[j][i]
+	ss[j][i] = c06Sentinel
+	out := gs(g) + " " + gs(c)
+	ss[j][i] = old
+	return out
+}
+
+func slotsString(slots []int) string {
+	var sb strings.Builder
+	sb.WriteString(strconv.Itoa(len(slots)))
+	for _, s := range slots {
+		sb.WriteString(" ")
+		sb.WriteString(strconv.Itoa(s))
+	}
+	return sb.String()
+}
+
+// genSlots draws an alias pattern for k point slices: slot j is its own array or the array of an earlier slot.
+func genSlots(c *Ctx, k int) []int {
+	r := c.Rng
+	slots := make([]int, k)
+	mode := r.Intn(4) // 0: no sharing, 1: sparse, 2: dense, 3: everything is slot 0
+	for j := range slots {
+		slots[j] = j
+		if j == 0 {
+			continue
+		}
+		switch mode {
+		case 1:
+			if r.Intn(4) == 0 {
+				slots[j] = slots[r.Intn(j)]
+			}
+		case 2:
+			if r.Intn(3) != 0 {
+				slots[j] = slots[r.Intn(j)]
+			}
+		case 3:
+			slots[j] = 0
+		}
+	}
+	return slots
+}
+
+func aliasCase(c *Ctx, g orb.Geometry, slots []int, j, i int) {
+	c.Case("alias", gs(g)+" "+slotsString(slots)+" "+strconv.Itoa(j)+" "+strconv.Itoa(i))
 }
 
 func sbound(b orb.Bound) string {
@@ -64,6 +263,29 @@ func runC06(op string, in []string) string {
 				return "mutated-argument"
 			}
 			return gs(c) + " " + b2s(eq) + " " + b2s(ind) + " " + bs
+		case "alias":
+			// <geom> k s_0..s_{k-1} j i: the original is <geom> with its j-th point slice replaced by the
+			// slice of slot s_j (internal sharing); report values, backing-array identities, the mutation
+			// test, and the effect of one write through the original / through the clone.
+			g0 := r.geom()
+			k := r.int()
+			slots := make([]int, k)
+			for x := range slots {
+				slots[x] = r.int()
+			}
+			j, i := r.int(), r.int()
+			var tab [][]orb.Point
+			g := shareGeom(g0, slots, &tab)
+			if len(tab) != k {
+				return "badslots"
+			}
+			before := gs(g)
+			c := orb.Clone(g)
+			if gs(g) != before {
+				return "mutated-argument"
+			}
+			return before + " " + gs(c) + " " + aliasReport(g, c) + " " + b2s(independent(g, c)) + " " +
+				writeProbe(g, g, c, j, i) + " " + writeProbe(c, g, c, j, i)
 		case "pair":
 			g := r.geom()
 			h := r.geom()
@@ -211,6 +433,42 @@ func genC06(c *Ctx) {
 		} {
 			c.Case("geom", gs(g))
 		}
+		// alias structure: no sharing on every AllGeometries value; originals that share memory internally
+		for _, g := range orb.AllGeometries {
+			if g == nil || strings.HasPrefix(gs(g), "n") { // nil interface / typed nil slices own no memory
+				continue
+			}
+			var ss [][]orb.Point
+			pointSlices(g, &ss)
+			id := make([]int, len(ss))
+			for x := range id {
+				id[x] = x
+			}
+			aliasCase(c, g, id, 0, 0)
+		}
+		rg := orb.Ring{{0, 0}, {4, 0}, {4, 4}, {0, 0}}
+		r2 := orb.Ring{{1, 1}, {2, 1}, {2, 2}, {1, 1}}
+		for _, sc := range []struct {
+			g     orb.Geometry
+			slots []int
+		}{
+			{orb.Polygon{rg, rg}, []int{0, 0}}, // both rings are the same slice
+			{orb.Polygon{rg, r2, rg, r2}, []int{0, 1, 0, 1}},
+			{orb.MultiLineString{l, l, e, l}, []int{0, 0, 2, 0}},
+			{orb.Collection{l, l}, []int{0, 0}},                                 // the same LineString twice
+			{orb.Collection{l, orb.Ring(l), orb.MultiPoint(l)}, []int{0, 0, 0}}, // one array under three types
+			{orb.MultiPolygon{{rg, r2}, {rg}, {r2, rg}}, []int{0, 1, 0, 1, 0}},  // shared across polygons
+			{orb.Collection{orb.Polygon{rg, r2}, orb.Collection{orb.LineString(rg), orb.MultiPolygon{{r2}, {rg, rg}}}, orb.Point{9, 9}},
+				[]int{0, 1, 0, 1, 0, 0}}, // shared across nesting levels
+			{orb.Collection{orb.Collection{orb.Collection{l}}, l, orb.Bound{Min: orb.Point{0, 0}, Max: orb.Point{1, 1}}}, []int{0, 0}},
+			{orb.Polygon{rg, orb.Ring{}, rg}, []int{0, 1, 0}},
+		} {
+			for j := 0; j < len(sc.slots); j++ {
+				for i := 0; i < 5; i++ {
+					aliasCase(c, sc.g, sc.slots, j, i)
+				}
+			}
+		}
 		for n := 0; n <= 7; n++ {
 			ps := make([]orb.Point, n)
 			for i := range ps {
@@ -240,5 +498,28 @@ func genC06(c *Ctx) {
 		c.Case("rev", spts(ps))
 		rg := genRing(r, []CoordMode{CoordSmallInt, CoordInt}[r.Intn(2)], 8)
 		c.Case("orient", spts(rg))
+		// alias structure of (original with internal sharing, clone)
+		oa := GenOpts{Mode: mode, MaxPts: 4, MaxDepth: 3}
+		ga := genGeom(r, oa, 0)
+		var ss [][]orb.Point
+		pointSlices(ga, &ss)
+		nonEmpty := 0
+		for _, s := range ss {
+			if len(s) > 0 {
+				nonEmpty++
+			}
+		}
+		if nonEmpty < 2 && r.Intn(6) != 0 { // prefer values with several non-empty point slices
+			l1 := orb.LineString{genPoint(r, mode), genPoint(r, mode)}
+			ga = orb.Collection{ga, l1, genGeom(r, oa, 1), orb.Polygon{genRing(r, mode, 4), orb.Ring{genPoint(r, mode)}}}
+			ss = nil
+			pointSlices(ga, &ss)
+		}
+		slots := genSlots(c, len(ss))
+		j, i := 0, r.Intn(5)
+		if len(ss) > 0 {
+			j = r.Intn(len(ss))
+		}
+		aliasCase(c, ga, slots, j, i)
 	}
 }
